@@ -321,3 +321,54 @@ func VerifHarness_C10_roundtrip() {
 		verifAssert(p.Body.GetField(Tag(t), &got) == nil && verifBytesEq(got, v), "roundtrip-same-field")
 	}
 }
+
+func init() { verifRegister("C10_rebuild", VerifHarness_C10_rebuild) }
+
+// C10_rebuild: a message that has already been serialised once is modified (fields removed and set again, in every
+// section, so that a section may hold the same number of fields as before) and serialised again: the second
+// serialisation is as well-formed as the first and shows exactly the current fields.
+func VerifHarness_C10_rebuild() {
+	m := NewMessage()
+	var model [3]c10Model
+	m.Header.SetString(tagBeginString, "FIX.4.2")
+	model[0].set(8, []byte("FIX.4.2"))
+	m.Header.SetString(tagMsgType, "D")
+	model[0].set(35, []byte("D"))
+	b1 := c10BodyTag("btag1")
+	b2 := 55
+	if verifTier() == 1 {
+		b2 = c10BodyTag("btag2")
+	}
+	slotSec := [4]int{0, 1, 1, 2}
+	slotTag := [4]int{int(tagSenderCompID), b1, b2, int(tagSignatureLength)}
+	for slot := 0; slot < 4; slot++ {
+		if slot == 2 && !ndBool("second-body-tag-set") {
+			continue
+		}
+		v := verifValueN("init", 1)
+		c10Section(m, slotSec[slot]).SetBytes(Tag(slotTag[slot]), v)
+		model[slotSec[slot]].set(slotTag[slot], v)
+	}
+	_ = m.build() // the first serialisation (what it looks like is C10_ops' subject)
+	K := verifBound(2, 3)
+	for k := 0; k < K; k++ {
+		slot := verifConc(ndInt("slot", 0, 3))
+		sec, t := slotSec[slot], slotTag[slot]
+		fm := c10Section(m, sec)
+		if ndBool("remove") {
+			verifCase("remove")
+			fm.Remove(Tag(t))
+			model[sec].remove(t)
+		} else {
+			verifCase("set")
+			v := verifValueN("val", 1)
+			fm.SetBytes(Tag(t), v)
+			model[sec].set(t, v)
+		}
+	}
+	out := m.build()
+	verifObserveB("wire", out)
+	c10Check(out, &model, "rebuilt")
+	_, err := verifParse(out)
+	verifAssert(err == nil, "rebuilt-parses-back")
+}
